@@ -247,12 +247,11 @@ func NewPolygonProto(polygon *s2.Polygon) *pb.PolygonProto {
 		for i, loop := range polygon.Loops() {
 			n := loop.NumVertices()
 			loopProtos[i] = &pb.LoopProto{Points: make([]*pb.PointProto, n, n)}
+			// Holes keep their counter-clockwise vertex order: PolygonProto
+			// documents all loops as counter-clockwise, and that is what
+			// PolygonProtoToS2Polygon (s2.PolygonFromLoops) reads.
 			for j, point := range loop.Vertices() {
-				if loop.IsHole() {
-					loopProtos[i].Points[n-j-1] = S2LatLngToPointProto(s2.LatLngFromPoint(point))
-				} else {
-					loopProtos[i].Points[j] = S2LatLngToPointProto(s2.LatLngFromPoint(point))
-				}
+				loopProtos[i].Points[j] = S2LatLngToPointProto(s2.LatLngFromPoint(point))
 			}
 		}
 		return &pb.PolygonProto{Loops: loopProtos}
